@@ -1,7 +1,13 @@
 #!/usr/bin/env python3
-"""setup_cmd: build the Lean project (models, proofs, property theorems, driver) from files on disk."""
-import os, subprocess, sys
+"""setup_cmd: build the Lean project (models, proofs, property theorems of every enabled check, driver)
+from files on disk.  Offline; no network, no Mathlib `require`."""
+import importlib, os, subprocess, sys
 here = os.path.dirname(os.path.abspath(__file__))
+sys.path.insert(0, here)
 lean = os.path.join(os.path.dirname(here), 'lean')
-rc = subprocess.call(['lake', 'build'], cwd=lean)
+targets = ['opusmodel']
+for pid in open(os.path.join(here, 'props', 'ENABLED')).read().split():
+    targets += importlib.import_module('props.' + pid).LEAN_MODULES
+os.makedirs(os.path.join(os.path.dirname(here), '.cache'), exist_ok=True)
+rc = subprocess.call(['lake', 'build'] + sorted(set(targets)), cwd=lean)
 sys.exit(rc)
